@@ -142,7 +142,72 @@ def reseed_multi(c):
   return out
 
 
+def jit_args(c):
+  """bound sibling modules (or child scopes) handed to a jitted / fold_rngs-wrapped module as ARGUMENTS: every key drawn in one apply --
+  by each sibling inside the transform, by each sibling outside it, by the parent itself -- must be different, and the same on every apply"""
+  import flax.linen as nn
+  from flax.core import apply as core_apply, lift
+  form, nsib, draws = c['form'], c['nsib'], c['draws']
+
+  kd = jax.random.key_data
+  fin = lambda ks: [[int(v) for v in np.asarray(k).reshape(-1)] for k in ks]
+  if form == 'core':
+    def leaf(scope, hk):
+      return [kd(scope.make_rng('noise')) for _ in range(draws)]
+
+    def body(scope):
+      ks = [kd(scope.make_rng('noise'))]
+      for i in range(nsib):
+        ks += lift.jit(leaf)(scope.push('b%d' % i), 'k')
+      for i in range(nsib):
+        ks += lift.fold_rngs(leaf)(scope.push('f%d' % i), 'k')
+      ks.append(kd(scope.make_rng('noise')))
+      return ks
+    run = lambda: core_apply(body, mutable=True)({}, rngs={'noise': jax.random.key(c['seed'])})[0]
+  else:
+    class Leaf(nn.Module):
+      @nn.compact
+      def __call__(self):
+        return [kd(self.make_rng('noise')) for _ in range(draws)]
+
+    class Plain(nn.Module):
+      @nn.compact
+      def __call__(self, other):
+        return other()
+
+    class MJ(nn.Module):
+      @nn.jit
+      def __call__(self, other):
+        return other()
+    A = {'method': MJ, 'class': nn.jit(Plain), 'fold': nn.fold_rngs(Plain)}[form]
+
+    class P(nn.Module):
+      @nn.compact
+      def __call__(self):
+        a = A(name='a')
+        sibs = [Leaf(name='b%d' % i) for i in range(nsib)]
+        ks = [kd(self.make_rng('noise'))] if c['own'] else []
+        for b in sibs:
+          ks += a(b)
+        for b in sibs:
+          ks += b()
+        if c['own']:
+          ks.append(kd(self.make_rng('noise')))
+        return ks
+    run = lambda: P().apply({}, rngs={'noise': jax.random.key(c['seed'])})
+  return {'runs': [fin(run()) for _ in range(c['applies'])]}
+
+
 def main(payload):
+  if 'jit_args' in payload:
+    out = []
+    for c in payload['jit_args']:
+      try:
+        out.append({'ok': jit_args(c)})
+      except Exception as e:  # pylint: disable=broad-except
+        import traceback
+        out.append({'err': type(e).__name__, 'tb': traceback.format_exc()[-600:]})
+    return {'jit_args': out}
   res = {}
   if 'reseed_multi' in payload:
     res['reseed_multi'] = []
